@@ -34,10 +34,21 @@ KINDS = R.SOC_KINDS + R.SOC_KINDS + ['pnorm', 'kl', 'entropy']
 
 
 def gen_case(rng, idx, tier):
+    if rng.random() < 0.12:
+        # matrix-shaped decision and random variables, bilinear terms in several array
+        # spellings, box sets given with broadcast bounds; the reference is a SciPy LP
+        from rv.props import c15
+        return c15.gen_matrix(rng, tier, robust=True)
     return R.gen(rng, tier, kinds=KINDS)
 
 
 def run_case(spec, ctx):
+    if spec.get('kind') == 'matrix':
+        from rv.props import c15
+        res = c15.run_matrix(spec, ctx)
+        if res.get('status') == 'held':
+            ctx.count('matrix_models_compared')
+        return res
     rng = np.random.default_rng(spec['spell'])
     ref = R.reference(spec)
     if ref.status != 'optimal':
